@@ -118,8 +118,9 @@ PROPS["C05"] = dict(
     level_text="Kernel-checked (Props/C05.lean): driver calls of a Modification/Deletion Request carry the addressed SEID; the request rewrites only that session's "
                "slot (every other SEID resolves to the same value: rules, counters, queues); re-association touches only SEIDs in the node's own set; SEID-0 removal "
                "matches CP SEID and node address. Tie: S-ctl 'nodes' + frame predicates on the implementation's dumps.",
-    level_note="Trusted: as C01. Reading fixed in DESIGN.md §8: 'sessions established under that node id' = sessions attached to the node object registered under it; "
-               "takeover into an already registered node id orphans that node (known finding, recorded).",
+    level_note="Trusted: as C01. The frame theorems are about the node OBJECT registered under an id (what the code keys on). The external ownership predicate reads the statement by the requests: a session "
+               "belongs to the node id of its Establishment Request, later to the node id of a Modification Request that takes THAT session over; re-association of N must remove exactly those. "
+               "The code's takeover renames the whole node object and can orphan a registered node: known finding takeoverNode (signature only in histories that contain a takeover; corpus/nodes.cases witnesses it on every run).",
 )
 PROPS["C08"] = dict(
     module="UpfVerif.Props.C08",
@@ -146,7 +147,7 @@ PROPS["C10"] = dict(
                "(Model/Krep.lean, the function the krep driver runs). External predicate on the ctl stream: every usage report sent is one the data plane produced for that session in this event, "
                "carried as measured (URR id, trigger, times, counters, duration; IEs by method/MNOP), none missing in a Session Report Request. Tie: S-ctl 'urr' (handlers) + S-full 'krep' (kernel REPORT multicast decoded by the real buffnetlink listener, queued, served by the running loop, "
                "Session Report Requests decoded at the SMF).",
-    level_note="Trusted: as C01; go-pfcp's IE encoders (harness decodes what was sent). Known finding: reports for sessions whose node id is IPv6/FQDN are dropped.",
+    level_note="Trusted: as C01; go-pfcp's IE encoders (harness decodes what was sent). Repaired (fix 90a7329): reports for sessions whose node id is an IPv6 address / FQDN were dropped (and the packet handed up for buffering not queued); they now go to the address the node associated from — dest_total, non_ipv4_node_falls_back; corpus case 9007.",
 )
 PROPS["C11"] = dict(
     module="UpfVerif.Props.C11",
